@@ -12,7 +12,7 @@ EXTENDS Integers, FiniteSets, Sequences, TLC
 MsgTypes == {"Login", "NewProxy", "CloseProxy", "NewWorkConn", "NewVisitorConn", "Ping", "NatHoleVisitor", "NatHoleClient",
              "NatHoleReport", "UDPPacket", "StartWorkConn", "LoginResp", "ReqWorkConn", "Pong", "NewProxyResp", "NatHoleResp", "NatHoleSid", "NewVisitorConnResp"}
 IntClasses == {"negative", "minusone", "zero", "one", "max16", "over16", "maxint"}
-StrClasses == {"empty", "long", "nonutf8", "unknown", "unicode"}
+StrClasses == {"empty", "long", "nonutf8", "unknown", "unicode", "silent"}      \* silent: the connection is opened and nothing is sent
 ListClasses == {"nil", "emptyelem", "huge", "garbage"}
 Classes == IntClasses \cup StrClasses \cup ListClasses \cup {"baseline"}
 ServerPhases == {"first-message", "after-login"}                \* sent to a real frps
